@@ -2,8 +2,8 @@
    permitted spelling (Spell.v) of the history that the HOG itself represents; re-loading them therefore
    reproduces a HOG with the same members, the same taxon for every sub-HOG and the same duplication grouping. *)
 From Coq Require Import List Arith Bool String Lia Permutation.
-From PyHam Require Import Tax Ortho Loader Mapper Preds Nav Export Hist Spell.
-From PyHam.proofs Require Import TaxFacts MapperFacts ForestFacts ClusterFacts LoaderFacts ExplicitFacts ExportFacts ChainFacts CladeFacts SpellFacts ProfileFacts AdditiveFacts.
+From PyHam Require Import Tax Ortho Loader Mapper Preds Nav Export Filter Hist Spell.
+From PyHam.proofs Require Import TaxFacts MapperFacts ForestFacts ClusterFacts LoaderFacts LoftFacts ExplicitFacts ExportFacts ChainFacts CladeFacts SpellFacts ProfileFacts AdditiveFacts.
 Import ListNotations.
 Local Open Scope string_scope.
 Local Open Scope list_scope.
@@ -486,14 +486,19 @@ Qed.
 Theorem export_roundtrip t genes o p m ks s :
   names_inj t -> wf_node t (HHog o p m ks) = true ->
   (forall g q, In (HGene g q) (all_of (HHog o p m ks)) -> find_gene g genes = Some q) -> dups_dom s ->
+  NoDup (genes_of (HHog o p m ks)) -> lfresh s (genes_of (HHog o p m ks)) ->
   let x := HHog o p m ks in
   exists it i x' s', export_groups t x = [it] /\ eval_top t genes it s = Ok ((i, x'), s') /\
     matches (hist_of x) x /\ matches (hist_of x) x' /\ htax x' = htax x /\ wf_node t x' = true.
 Proof.
-  intros Hinj Hwf Hg Hdom x.
+  intros Hinj Hwf Hg Hdom Hnd Hfr x.
   destruct (export_spells_top t o p m ks Hinj Hwf) as (it & Eit & Hsp).
   pose proof (WFh_hist_of t genes x Hwf Hg) as HW.
-  destruct (spelt_top_evaluates t genes (hist_of x) it s HW Hsp Hdom) as (i & x' & s' & E & M & T & W & _).
+  pose proof (export_refs t x false) as Hperm. unfold export_groups in Eit. subst x. rewrite Eit in Hperm. cbn [flat_map] in Hperm. rewrite app_nil_r in Hperm.
+  assert (Hnd' : NoDup (refs_of it)) by (eapply Permutation_NoDup; [apply Permutation_sym; exact Hperm|exact Hnd]).
+  assert (Hfr' : lfresh s (refs_of it)).
+  { intros g Hin. apply Hfr. eapply Permutation_in; [exact Hperm|exact Hin]. }
+  destruct (spelt_top_evaluates t genes _ it s HW Hsp Hdom Hnd' Hfr') as (i & x' & s' & E & M & T & W & _).
   exists it, i, x', s'. split; [exact Eit|]. split; [exact E|]. split; [apply (matches_hist_of t); exact Hwf|].
   split; [exact M|]. split; [rewrite T; apply xtax_hist_of|exact W].
 Qed.
